@@ -13,24 +13,24 @@ def check(repo, rep, tier):
                        'folded around the body with complementary alias/unify tests; (c) the emitter is total on the bodies the '
                        'statement names (exhaustive dispatch, templates parse for every code tree incl. empty bodies). NOT decided: '
                        'that the answer sequence equals SLD resolution\'s for all programs and queries - a value-level statement.')
-    re_.rule_anonymous_variables(cm, rep, 'C01.V1')
-    re_.rule_variable_coverage(cm, rep, 'C01.V2')
-    rcl.rule_clause_scope(cm, rep, 'C01.V3')
-    rcl.rule_clause_head(cm, rep, 'C01.H1')
-    rcl.rule_program_structure(cm, rep, 'C01.V6')
-    rc.rule_body_rules(cm, rep, 'C01.N1', 'all', scope)
-    rc.rule_exhaustive(cm, rep, 'C01.T1x')
-    re_.rule_emitted_text_parses(cm, rep, 'C01.T1')
-    rc.rule_templates_implement_minilanguage(cm, rep, 'C01.B1', depth=3, width=2, scope=2, limit=None if tier == 'thorough' else 1500)
-    rc.rule_list_order(cm, rep, 'C01.L1')
+    rep.run(re_.rule_anonymous_variables, cm, rep, 'C01.V1')
+    rep.run(re_.rule_variable_coverage, cm, rep, 'C01.V2')
+    rep.run(rcl.rule_clause_scope, cm, rep, 'C01.V3')
+    rep.run(rcl.rule_clause_head, cm, rep, 'C01.H1')
+    rep.run(rcl.rule_program_structure, cm, rep, 'C01.V6')
+    rep.run(rc.rule_body_rules, cm, rep, 'C01.N1', 'all', scope)
+    rep.run(rc.rule_exhaustive, cm, rep, 'C01.T1x')
+    rep.run(re_.rule_emitted_text_parses, cm, rep, 'C01.T1')
+    rep.run(rc.rule_templates_implement_minilanguage, cm, rep, 'C01.B1', depth=3, width=2, scope=2, limit=None if tier == 'thorough' else 1500)
+    rep.run(rc.rule_list_order, cm, rep, 'C01.L1')
     # the engine the compiled code runs on: bindings made and undone by the binder only, = and \= as defined
     from ..eng import EngineModel
     from .. import rules_bind as rb
     from .. import rules_db as rd
     em = EngineModel(repo)
-    rb.rule_undo_on_all_exits(em, rep, 'C01.E1')
-    rb.rule_bind_ownership(em, rep, 'C01.E2')
-    rb.rule_at_most_one_yield(em, rep, 'C01.E3')
-    rd.rule_neq(em, rep, 'C01.E4')
-    rb.rule_arity_guard(em, rep, 'C01.E5')
-    rc.rule_compiler_bounded(cm, rep, 'C01.N2', depth=3, scope=3 if tier == 'thorough' else 2, combs=4 if tier == 'thorough' else 0)
+    rep.run(rb.rule_undo_on_all_exits, em, rep, 'C01.E1')
+    rep.run(rb.rule_bind_ownership, em, rep, 'C01.E2')
+    rep.run(rb.rule_at_most_one_yield, em, rep, 'C01.E3')
+    rep.run(rd.rule_neq, em, rep, 'C01.E4')
+    rep.run(rb.rule_arity_guard, em, rep, 'C01.E5')
+    rep.run(rc.rule_compiler_bounded, cm, rep, 'C01.N2', depth=3, scope=3 if tier == 'thorough' else 2, combs=4 if tier == 'thorough' else 0)
